@@ -2017,6 +2017,62 @@ def D45_dynamic_slice_clamps_the_start():
     return True, "agrees with JAX for start indices 0, 2, 3, 7"
 
 
+def _c06_act_a(v):
+    return v * 2.0 + 1.0
+
+
+def _c06_act_b(v):
+    return -v + 0.5
+
+
+def C06_cond_sites_family():
+    """C06 (bounded): several conditionals in one graph whose branch callables are shared function objects (a gate helper applied
+    at two independent sites, stacked twice, inside and after a loop body, two-branch switch), for all combinations of the
+    predicates and 3 operand values per site; every exported model equals JAX."""
+    import itertools
+    jax, jnp = _jax()
+    from jax import lax
+    import jax2onnx
+
+    def gate(p, v):
+        return lax.cond(p, _c06_act_a, _c06_act_b, v)
+
+    progs = [
+        ("same helper at two independent sites", lambda p, q, x, y: (gate(p, x), gate(q, y))),
+        ("same helper stacked", lambda p, q, x, y: gate(q, gate(p, x) + y)),
+        ("helper inside a fori_loop body and after it", lambda p, q, x, y: gate(q, lax.fori_loop(0, 2, lambda i, c: gate(p, c) * 0.5, x) + y)),
+        ("two-branch switch twice", lambda p, q, x, y: lax.switch(p.astype(jnp.int32), [_c06_act_a, _c06_act_b], x) + lax.switch(q.astype(jnp.int32), [_c06_act_a, _c06_act_b], y)),
+        ("helper and an inline lambda with the same body", lambda p, q, x, y: gate(p, x) + lax.cond(q, lambda v: v * 2.0 + 1.0, lambda v: -v + 0.5, y)),
+    ]
+    spec = [jax.ShapeDtypeStruct((), np.bool_), jax.ShapeDtypeStruct((), np.bool_), jax.ShapeDtypeStruct((3,), np.float32), jax.ShapeDtypeStruct((3,), np.float32)]
+    xs = [np.asarray([0.5, -1.0, 2.0], np.float32), np.asarray([3.0, 0.25, -4.0], np.float32)]
+    ys = [np.asarray([10.0, 20.0, -30.0], np.float32), np.asarray([-0.5, 7.0, 1.5], np.float32)]
+    n = loud = 0
+    for what, fn in progs:
+        try:
+            m = jax2onnx.to_onnx(fn, spec, model_name="c06sites")
+        except Exception:
+            loud += 1
+            continue
+        import onnxruntime as ort
+        so = ort.SessionOptions()
+        so.log_severity_level = 4
+        sess = ort.InferenceSession(m.SerializeToString(), so, providers=["CPUExecutionProvider"])
+        names = [i.name for i in sess.get_inputs()]
+        for p_, q_, x, y in itertools.product((False, True), (False, True), xs, ys):
+            feeds = [np.asarray(p_), np.asarray(q_), x, y]
+            got = sess.run(None, dict(zip(names, feeds)))
+            want = fn(jnp.asarray(p_), jnp.asarray(q_), jnp.asarray(x), jnp.asarray(y))
+            want = [np.asarray(t) for t in (want if isinstance(want, tuple) else (want,))]
+            for g_, w_ in zip(got, want):
+                if g_.shape != w_.shape or not np.allclose(g_, w_, rtol=1e-5, atol=1e-6):
+                    return False, f"{what} with predicates ({p_}, {q_}), x={x.tolist()}, y={y.tolist()}: model gives {g_.tolist()}, JAX {w_.tolist()}"
+            n += 1
+    if n < 32:
+        return None, f"only {n} evaluations possible ({loud} exports raised)"
+    return True, f"{n} evaluations of programs with several conditionals agree with JAX ({loud} exports raised loudly)"
+
+
 def _scope_walk(model):
     """(ok, why): every value is defined before it is read, in its own graph or an enclosing one; function bodies read only their inputs"""
     def walk(g, outer, where):
@@ -2154,6 +2210,7 @@ ALL = {
     "D43": D43_nnx_attention_is_causal_not_ignored,
     "C16_returned_value_arity_family": C16_returned_value_arity_family,
     "D44": D44_lax_round_ties_away_from_zero, "D45": D45_dynamic_slice_clamps_the_start,
+    "C06_cond_sites_family": C06_cond_sites_family,
     "C13_retrace_family": C13_retrace_family, "D36": D36_jit_helper_keeps_working_after_conversion,
     "C13_rebinding_between_conversions": C13_rebinding_between_conversions,
     "D1": D1_max_nonscalar_side_operand,
